@@ -62,7 +62,7 @@ func (c08) Plan(tier string, seed uint64) []core.Case {
 				P: map[string]interface{}{"config": cfg, "depth": depth, "frontier": frontier, "walks": walks / 4, "firsts": firsts}, TimeoutS: 900})
 		}
 	}
-	cases = append(cases, core.Case{ID: "C08/highlevel", Engine: "highlevel", Seed: seed, TimeoutS: 600})
+	cases = append(cases, core.Case{ID: "C08/highlevel", Engine: "highlevel", Seed: seed, P: map[string]interface{}{"all_pairs": tier == "thorough"}, TimeoutS: 900})
 	return cases
 }
 
@@ -214,8 +214,22 @@ func (p c08) Run(c core.Case) core.Result {
 			{"negopts", "negconf:tls", "authreq", "established"}, {"authreq", "established:noid"}, {"authreq", "established:nonodes"}, {"negopts", "negconf:none", "finishing"}, {"new"},
 			{"authreq", "finishing"}, {"negopts", "authreq"}, {"negopts", "negconf:absent", "authreq", "established"},
 		}
+		// plus every script of one or two server symbols (terminal envelopes with and without a reason, ...)
+		alpha := hs.ServerAlphabet()
+		for _, a := range alpha {
+			scripts = append(scripts, []string{a})
+			if a == "authreq" || a == "negopts" || (c.Bool("all_pairs") && a != "disconnect" && a != "garbage") {
+				for _, b := range alpha {
+					scripts = append(scripts, []string{a, b})
+				}
+			}
+		}
 		for _, sc := range scripts {
-			judge(hs.RunClient(hs.ClientConfig{Name: "hl-none+guest", Selector: "none", Auth: "guest", HighLevel: true}, sc))
+			tr := hs.RunClient(hs.ClientConfig{Name: "hl-none+guest", Selector: "none", Auth: "guest", HighLevel: true}, sc)
+			judge(tr)
+			if len(r.Findings) > 30 {
+				break
+			}
 		}
 	}
 	for k := range fps {
